@@ -155,6 +155,14 @@ def diff(before, after):
     return out
 
 
+def _split_writes(d):
+    """the property forbids writes to the shared parameter-set / group objects (and the classes all sessions share);
+    module- or function-level state is only a tripwire: harmless if no session's behaviour depends on it"""
+    hard = [x for x in d if " module " not in (" " + x)]
+    softw = [x for x in d if " module " in (" " + x)]
+    return hard, softw
+
+
 def _abs_params(q, tag, shared_with=None):
     P = loader.MODS["params"]
     if shared_with is not None:
@@ -266,7 +274,11 @@ def job_frame(J, cls):
             J.claim(r, "sessions run (%s)" % type(r.value).__name__, False, cex=cex, oracle="interleave")
             continue
         for op, d in w["log"]:
-            J.claim(r, "%s writes nothing outside the instance %s" % (op, d[:3] if d else ""), not d, cex=cex, oracle="interleave")
+            hard, softw = _split_writes(d)
+            J.claim(r, "%s writes nothing to the shared parameter/group/element objects or classes %s" % (op, hard[:3] if hard else ""),
+                    not hard, cex=cex, oracle="interleave")
+            J.claim(r, "%s leaves module-level and function-level state alone %s" % (op, softw[:3] if softw else ""), not softw,
+                    cex=cex, oracle="interleave", soft=True)
         syms = _symbols(w["msg"], w["oa"], w["blob"])
         foreign = sorted(s for s in syms if s.startswith("s2"))
         J.claim(r, "outputs mention only the session's own inputs (foreign symbols: %s)" % foreign, not foreign, cex=cex, oracle="interleave")
@@ -310,8 +322,11 @@ def job_frame_real(J, gname, cls):
             J.claim(r, "real %s session runs (%s)" % (gname, type(r.value).__name__), False, cex=cex, oracle="interleave")
             continue
         for op, d in r.ctx.data["w"]["log"]:
-            J.claim(r, "real %s: %s writes nothing outside the instance %s" % (gname, op, d[:3] if d else ""), not d,
-                    cex=cex, oracle="interleave")
+            hard, softw = _split_writes(d)
+            J.claim(r, "real %s: %s writes nothing to the shared parameter/group/element objects or classes %s" % (gname, op, hard[:3] if hard else ""),
+                    not hard, cex=cex, oracle="interleave")
+            J.claim(r, "real %s: %s leaves module-level and function-level state alone %s" % (gname, op, softw[:3] if softw else ""),
+                    not softw, cex=cex, oracle="interleave", soft=True)
 
 
 def job_matrix(J, gname):
